@@ -258,14 +258,15 @@ def FM_final(p):
 
 
 def r6(idx, rep):
+    ft = idx.method("PrintParser", "_transform_reference")
     fd = idx.method("PrintParser", "_ref_from_dict")
-    rep.analysed(fd)
+    rep.analysed(fd, ft)
     data = {"v": {"k": 0, "z": 7, "e": ""}, "lst": [0, 5, None], "s": "text", "n": 0, "f": False}
     bad = None
     for name, tracking, want in (("v", "k", 0), ("v", "z", 7), ("v", "e", ""), ("v", None, {"k": 0, "z": 7, "e": ""}), ("lst", "0", 0), ("lst", "1", 5), ("lst", "length", 3),
                                  ("lst", None, [0, 5, None]), ("s", None, "text"), ("n", None, 0), ("f", None, False), ("missing", None, "missing")):
         it = Interp(idx, types={"self": "PrintParser"}, unknown_calls="residual")
-        ps = it.run_all(fd, args={"ref": {}, "data": dict(data), "name": name, "tracking": tracking})
+        ps = it.run_all(ft, args={"ref": {"data": dict(data), "name": [name, tracking], "data_type": "variables"}})
         if len(ps) != 1 or ps[0].result[0] != "return" or ps[0].result[1] != want or type(ps[0].result[1]) is not type(want):
             bad = bad or f"$.variables.{name}{'.' + tracking if tracking else ''} with {data}: prints {ps[0].result[1]!r}, documented {want!r}"
     rep.check(bad is None, "R6", f"{fd.file}::PrintParser._ref_from_dict table", bad or "", K.where(fd, fd.node))
@@ -277,7 +278,7 @@ def r6(idx, rep):
         it = Interp(idx, types={"self": "PrintParser"}, unknown_calls="residual",
                     handlers={"self.csvpath.header_index": lambda i, c, r, a, k: {"a": 0, "b": 1, "c": 2}.get(a[0])},
                     domains={"self.csvpath.matcher": [Obj("M")]})
-        ps = it.run_all(fl, args={"ref": {}, "data": ["a", "b", "c"], "name": name, "tracking": None}, store={"M.line": list(line)})
+        ps = it.run_all(ft, args={"ref": {"data": ["a", "b", "c"], "name": [name, None], "data_type": "headers"}}, store={"M.line": list(line)})
         if len(ps) != 1 or ps[0].result != ("return", want):
             bad = bad or f"$.headers.{name} on line {line}: prints {ps[0].result}, documented {want!r}"
     rep.check(bad is None, "R6", f"{fl.file}::PrintParser._ref_from_list table", bad or "", K.where(fl, fl.node))
